@@ -734,3 +734,15 @@ where
 {
     buf.extend_from_slice(&x.to_be_bytes())
 }
+
+#[cfg(feature = "verif")]
+pub(crate) mod verif_hooks {
+    use super::*;
+
+    pub fn udp_association(socket: UdpSocket) -> UdpAssociation<()> {
+        UdpAssociation {
+            socket,
+            _stream: (),
+        }
+    }
+}
